@@ -1,143 +1,12 @@
 ------------------------------ MODULE Tokenizer ------------------------------
 (***************************************************************************)
-(* internal/parser at implementation grain: the scanner's split function   *)
-(* (splitFunc as written: rescans from the token start, drops leading      *)
-(* blank lines, hands out a chunk at a double line end or at the end of    *)
-(* input), the wrapper in parser.New that decides once whether a BOM may   *)
-(* be stripped, Parser.Next looping over chunks, and FieldParser.Next      *)
-(* cutting a chunk into lines - over a token string that arrives in reads  *)
-(* cut at arbitrary token boundaries.                                      *)
-(*                                                                         *)
-(* Refinement checked by TLC for every input and every segmentation:       *)
-(* feeding the fields this layer produces to the interpretation of         *)
-(* event.go's read() gives exactly StreamCore's result, i.e. the           *)
-(* implementation's structure (chunks, rescans, BOM flag) is invisible.    *)
-(* Variants AsFound* re-introduce the pinned tree's defects D1 and D5 and   *)
-(* must fail (they are the spec's own sensitivity tests).                  *)
-(*                                                                         *)
-(* Properties served: C01 (chunking independence), C11 (end conditions).   *)
+(* TokenizerCore.tla over every input and every segmentation: TLC checks   *)
+(* the refinement Tokenizer => StreamCore (C01's chunking independence at  *)
+(* model level).                                                           *)
 (***************************************************************************)
-EXTENDS StreamCore
+EXTENDS TokenizerCore
 
-CONSTANTS Alphabet, MaxLen,
-          AsFoundBOM,     \* TRUE: strip the BOM on the first chunk even if blank lines were skipped before it (D1)
-          AsFoundNext,    \* TRUE: Parser.Next gives up when one chunk yields no field (D5)
-          EagerFirst      \* TRUE: the "first chunk" decision is consumed by a split call that only asks for more data (seeded change C01-a)
-
------------------------------------------------------------------------------
-(* splitFunc(data, atEOF) on a token sequence: returns [advance, start, token?] *)
-
-\* NewlineIndex(s): index of the first line end (0-based distance) and its length (0 = none)
-NLIndex(s) ==
-    LET n == FirstNL(s) IN
-    IF n = 0 THEN [index |-> Len(s), len |-> 0]
-    ELSE [index |-> n - 1, len |-> IF s[n] = "CR" /\ n < Len(s) /\ s[n + 1] = "LF" THEN 2 ELSE 1]
-
-RECURSIVE SplitLoop(_, _, _)
-SplitLoop(data, advance, start) ==
-    LET r == NLIndex(Drop(data, advance))
-        adv1 == advance + r.index + r.len
-        st1 == IF r.index = 0 THEN start + r.len ELSE start
-    IN IF adv1 = Len(data) \/ (IsNL(data[adv1 + 1]) /\ r.index > 0)
-       THEN [advance |-> adv1, start |-> st1]
-       ELSE SplitLoop(data, adv1, st1)
-
-Split(data, atEOF) ==
-    IF data = <<>> THEN [more |-> TRUE, advance |-> 0, start |-> 0]
-    ELSE LET l == SplitLoop(data, 0, 0)
-             n == Len(data)
-         IN IF l.advance = n /\ ~atEOF THEN [more |-> TRUE, advance |-> 0, start |-> 0]
-            ELSE IF l.advance < n THEN
-                 LET a1 == l.advance + 1
-                     a2 == IF a1 < n /\ data[a1] = "CR" /\ data[a1 + 1] = "LF" THEN a1 + 1 ELSE a1
-                 IN [more |-> FALSE, advance |-> a2, start |-> l.start]
-            ELSE [more |-> FALSE, advance |-> l.advance, start |-> l.start]
-
------------------------------------------------------------------------------
-(* The scanner: reads arrive at the cut points; Scan calls Split on what is buffered *)
-
-\* chunks handed out for an input that arrives in the pieces given by `cuts` (ascending offsets), the
-\* end of input being reported by a further read; each chunk is [text, first, clean]: `first` is the
-\* wrapper's flag when the chunk was handed out, `clean` tells that no leading blank lines were skipped
-\* (advance = len(token)), which is how the wrapper learns that the chunk starts at stream offset 0
-RECURSIVE Scan(_, _, _, _, _, _, _)
-Scan(input, cuts, pos, avail, eof, firstPending, acc) ==
-    LET data == SubSeq(input, pos + 1, avail)
-        r == IF data = <<>> /\ ~eof THEN [more |-> TRUE, advance |-> 0, start |-> 0]    \* bufio: nothing buffered, no split call
-             ELSE Split(data, eof)
-        called == ~(data = <<>> /\ ~eof)
-        fp == IF EagerFirst /\ called THEN FALSE ELSE firstPending
-    IN IF r.more THEN
-          IF eof THEN acc
-          ELSE IF avail < Len(input) THEN
-               Scan(input, IF cuts = <<>> THEN <<>> ELSE Tail(cuts), pos, IF cuts = <<>> THEN Len(input) ELSE Head(cuts), FALSE, fp, acc)
-          ELSE Scan(input, cuts, pos, avail, TRUE, fp, acc)
-       ELSE LET tok == SubSeq(data, r.start + 1, r.advance)
-                chunk == [text |-> tok, first |-> firstPending, clean |-> r.advance = Len(tok)]
-            IN IF r.advance = 0 THEN Append(acc, chunk)      \* an empty token at the end of input
-               ELSE Scan(input, cuts, pos + r.advance, avail, eof, FALSE, Append(acc, chunk))
-
-Chunks(input, cuts) == Scan(input, cuts, 0, 0, FALSE, TRUE, <<>>)
-
------------------------------------------------------------------------------
-(* FieldParser over one chunk and Parser.Next over the chunks: the field sequence *)
-
-\* fields of one chunk: [name, val] per terminated line that is a field or a blank line; eof = an unterminated rest
-RECURSIVE ChunkFields(_, _)
-ChunkFields(text, acc) ==
-    IF text = <<>> THEN [fields |-> acc, eof |-> FALSE]
-    ELSE LET n == FirstNL(text) IN
-         IF n = 0 THEN [fields |-> acc, eof |-> TRUE]
-         ELSE LET line == SubSeq(text, 1, n - 1)
-                  skip == IF text[n] = "CR" /\ n < Len(text) /\ text[n + 1] = "LF" THEN n + 1 ELSE n
-                  c == FirstColon(line)
-                  name == IF c = 0 THEN line ELSE SubSeq(line, 1, c - 1)
-                  val == IF c = 0 THEN <<>> ELSE TrimSP(Drop(line, c))
-                  isField == name \in {<<"data">>, <<"event">>, <<"id">>, <<"retry">>} \/ line = <<>>
-              IN ChunkFields(Drop(text, skip), IF isField THEN Append(acc, [name |-> name, val |-> val]) ELSE acc)
-
-\* the BOM is stripped from the first chunk only - and only if that chunk starts the stream
-StripIfFirst(ch, isFirstChunk) ==
-    \* the wrapper disables the removal when it sees, on the first chunk, that blank lines were skipped; if its
-    \* one-shot flag is already spent (EagerFirst) it does not look and the removal stays enabled
-    IF isFirstChunk /\ (AsFoundBOM \/ ~ch.first \/ ch.clean) /\ ch.text # <<>> /\ ch.text[1] = "BOM"
-    THEN Drop(ch.text, 1) ELSE ch.text
-
-\* Parser.Next over all chunks: [fields, status] with status "eof" | "unexpected_eof" | "stopped" (D5: returned
-\* false without having reached the end)
-RECURSIVE AllFields(_, _, _)
-AllFields(chunks, k, acc) ==
-    IF k > Len(chunks) THEN [fields |-> acc, status |-> "eof"]
-    ELSE LET cf == ChunkFields(StripIfFirst(chunks[k], k = 1), <<>>) IN
-         IF cf.eof THEN [fields |-> acc \o cf.fields, status |-> "unexpected_eof"]
-         ELSE IF AsFoundNext /\ cf.fields = <<>> THEN [fields |-> acc, status |-> "stopped"]
-         ELSE AllFields(chunks, k + 1, acc \o cf.fields)
-
------------------------------------------------------------------------------
-(* event.go read() over the field sequence *)
-
-RECURSIVE ReadFields(_, _, _)
-ReadFields(fs, st, mode) ==
-    IF fs = <<>> THEN st
-    ELSE LET f == Head(fs)
-             s1 == IF f.name = <<>> /\ f.val = <<>> THEN       \* blank line: dispatch
-                        [st EXCEPT !.out = IF st.dirty THEN Append(st.out, Event(st)) ELSE st.out,
-                                   !.data = <<>>, !.hasData = FALSE, !.type = <<>>, !.dirty = FALSE]
-                   ELSE IF f.name = <<"data">> THEN [st EXCEPT !.data = st.data \o f.val \o <<"LF">>, !.hasData = TRUE, !.dirty = TRUE]
-                   ELSE IF f.name = <<"event">> THEN [st EXCEPT !.type = f.val, !.dirty = TRUE]
-                   ELSE IF f.name = <<"id">> THEN (IF HasNUL(f.val) THEN st ELSE [st EXCEPT !.lastId = f.val, !.dirty = TRUE])
-                   ELSE IF f.name = <<"retry">> /\ AllDigits(f.val) /\ mode = "conn" THEN [st EXCEPT !.dirty = TRUE]
-                   ELSE st
-         IN ReadFields(Tail(fs), s1, mode)
-
-\* the observable result of the implementation-shaped pipeline for a clean end of input
-Impl(input, cuts, mode) ==
-    LET af == AllFields(Chunks(input, cuts), 1, <<>>)
-        st == ReadFields(af.fields, InitSt(<<>>, <<>>), mode)
-    IN [out |-> IF af.status = "eof" /\ st.dirty THEN Append(st.out, Event(st)) ELSE st.out,
-        status |-> af.status]
-
-Ref(input, mode) == LET r == Interpret(input, "clean", mode, <<>>) IN [out |-> r.out, status |-> r.status]
+CONSTANTS Alphabet, MaxLen
 
 -----------------------------------------------------------------------------
 (* generation of inputs and segmentations *)
